@@ -317,10 +317,16 @@ class Settings(MutableMapping):
         del self._settings[key]
 
     def __iter__(self):
-        return self._settings.__iter__()
+        # A setting that has only ever been proposed, and is still waiting to
+        # be acknowledged, has no current value: __getitem__ raises KeyError
+        # for it, so it is not one of the keys either.
+        return (
+            key for key, values in self._settings.items()
+            if values[0] is not None
+        )
 
     def __len__(self):
-        return len(self._settings)
+        return sum(1 for _ in self)
 
     def __eq__(self, other):
         if isinstance(other, Settings):
